@@ -528,8 +528,14 @@ def compare(mblocks, iblocks, has_progs):
                     st.append(ln)
             return st, evs, times
         ms, me, mt = split(mb, True)
-        is_, ie, _ = split(ib, True)
-        if has_progs and any(len(v) > 1 for v in mt.values()):
+        is_, ie, it = split(ib, True)
+        # same-instant events of different jobs on EITHER side (the implementation may have started a job the
+        # model never starts because another job's coroutine deleted it at that very instant, or vice versa)
+        both = collections.defaultdict(set)
+        for tt in (mt, it):
+            for k, v in tt.items():
+                both[k] |= v
+        if has_progs and any(len(v) > 1 for v in both.values()):
             return ("ambiguous", i)
         if ms != is_:
             for x, y in zip(ms, is_):
